@@ -55,6 +55,7 @@ var (
 	errNoCookies            = errors.New("packet does not contain cookies")
 	errNoUniqueID           = errors.New("packet does not contain a unique identifier")
 	errInvalidExtLength     = errors.New("invalid extension field length")
+	errUnexpectedNonceLen   = errors.New("unexpected nonce length")
 	errShortUniqueID        = errors.New("UniqueIdentifier.ID < 32 bytes")
 	errUnexpectedExtHdrType = errors.New("unexpected extension header type")
 	errUnexpectedResponseID = errors.New("unexpected response ID")
@@ -217,6 +218,10 @@ func (pkt *Packet) authenticate(b []byte, key []byte) error {
 	aessiv, err := miscreant.NewAEAD("AES-CMAC-SIV", key, 16)
 	if err != nil {
 		return err
+	}
+
+	if len(pkt.Auth.Nonce) != aessiv.NonceSize() {
+		return errUnexpectedNonceLen
 	}
 
 	decrytedBuf, err := aessiv.Open(nil, pkt.Auth.Nonce, pkt.Auth.CipherText, b[:pkt.Auth.pos])
